@@ -135,6 +135,39 @@ def run_sweep(case, res):
     return {"max_sent": max(oks) if oks else None, "first_refused": seen_refused, "exact": force is not None}
 
 
+def work_padding(chunk):
+    """The padding that follows the scoped PDU inside the ciphertext must be bytes the library wrote for *this* request:
+    it may not depend on what the session decrypted or sent before (stale / never-written buffer content)."""
+    res = common.Result()
+    for case in chunk:
+        cfg = Cfg.from_desc(case["cfg"])
+        n = case["n"]
+        pads = []
+        for variant in case["variants"]:
+            hist = list(variant) + [["get_n", 0, n]]
+            probs, r = histories.run_history([cfg.describe()], hist, ("priv",), pin_ids=True)
+            res.count("requests", r.datagrams)
+            pads.append(r.trace[-1]["pad"] if r.trace else None)
+        res.count("padding_cases")
+        res.distinct()
+        res.outcome("padding-%d" % (len(pads[0]) if pads[0] is not None else -1))
+        if any(p is None for p in pads):
+            continue  # undecryptable: C11's subject
+        # compare only paddings of equal length (the length follows the scoped-PDU length; ids are pinned through the
+        # RNG seam so that it is normally the same in all variants)
+        by_len = {}
+        for p in pads:
+            by_len.setdefault(len(p), set()).add(p)
+        if any(len(v) > 1 for v in by_len.values()):
+            res.violation(
+                "padding-depends-on-history/%s" % cfg.name,
+                "get of a %d-arc OID on %s: the %d padding octets inside the ciphertext differ with the preceding traffic: %s (stale or never-written buffer content is being sent)"
+                % (n, cfg.name, len(pads[0]), [p.hex() for p in pads]),
+                case,
+            )
+    return res
+
+
 def work(chunk):
     res = common.Result()
     res["sweeps"] = []
@@ -191,6 +224,7 @@ def run(tier):
     rec.assume(
         "request-id and msgID are pinned to 4-octet values through the RNG seam during the sweep (their random width would otherwise move the threshold by up to 6 octets; "
         "without the seam an 8-octet tolerance is applied)",
+        "padding inside the ciphertext may have any value the library writes for the request at hand, but must be the same whatever the session sent or decrypted before",
         "request size grows monotonically with the swept parameter; privacy adds a second (private) buffer, so for privacy configurations only monotonicity, clean refusal and intact "
         "follow-up requests are required, not one common threshold",
         "(c) loom explores the real pool.rs/buffer.rs (std::sync mapped to loom::sync by a textual shim) for 2-3 threads x 1-3 acquire/release rounds, preemption bound 2-3",
@@ -219,6 +253,21 @@ def run(tier):
         sweeps += res.pop("sweeps")
         if res.pop("exact", True) is False:
             rec.extra["id_width_tolerance"] = 8
+        rec.merge(res)
+    # padding octets must not depend on the session's history
+    pcases = []
+    variants = [
+        [],
+        [["get_n", 0, 5], ["reply", 0, "octets", 40]],
+        [["get_n", 0, 9], ["reply", 0, "octets", 77], ["get_many", 0, "forty"]],
+        [["get_many", 0, "pair"], ["reply", 0, "ok", 1]],
+    ]
+    for cfg in drivers.k7():
+        if not cfg.priv:
+            continue
+        for n in range(2, 20):
+            pcases.append({"cfg": cfg.describe(), "n": n, "variants": variants})
+    for _, res in pool.run(work_padding, [pcases[i : i + 6] for i in range(0, len(pcases), 6)], timeout=600, case_timeout=300, log_path=lp, on_failure=on_failure):
         rec.merge(res)
     # one common threshold per non-privacy configuration across octet-granular dimensions
     by = {}
